@@ -18,7 +18,7 @@ from pbt.core import Collector, HarnessError, mksig
 from pbt.props.c09 import split_tail
 
 ID = "C12"
-RULE = ("matrix of (Term subclass from the live package) x (position) x (six dialect classes) x (.as_() / alias=); plus GROUP BY / ORDER BY by defined and "
+RULE = ("matrix of (Term subclass from the live package) x (position: 4 defining, 30 operand slots incl. INSERT VALUES / UPDATE SET / ORDER BY / GROUP BY expressions, 14 operand slots inside select-list items, FROM / JOIN / IN container for selectables) x (six dialect classes) x (get_sql(ctx) / parameterised / str()); plus GROUP BY / ORDER BY by defined and "
         "undefined alias. Every cell is one case; a cell is non-trivial when the class can be built and can legally stand in the position; distinct = distinct cell. "
         "The matrix is enumerated completely in both tiers.")
 ASSUMPTIONS = [
